@@ -495,12 +495,17 @@ func runC18(r *rt.Run, tier string) {
 // the race part: real goroutines, -race build, uninstrumented tree
 
 func raceMain(fs *flag.FlagSet, args []string) {
+	prop := fs.String("prop", "C18", "")
 	seed := fs.Uint64("seed", 1, "")
 	n := fs.Int("n", 300, "task sets")
 	from := fs.Int("from", 0, "")
 	out := fs.String("out", "", "")
 	fs.Parse(args)
 	runtime.GOMAXPROCS(16)
+	if *prop == "C15" {
+		raceC15(*seed, *from, *n, *out)
+		return
+	}
 	mismatches := 0
 	calls := 0
 	var firstMsg string
